@@ -1,12 +1,14 @@
 """Pool: xsi:type hierarchies, anyType fields, root lookup without a class."""
 from dataclasses import dataclass, field
+
+from sim.pool.base import StableHashMeta
 from typing import Optional
 
 __NAMESPACE__ = "urn:x"
 
 
 @dataclass
-class Animal:
+class Animal(metaclass=StableHashMeta):
     class Meta:
         name = "animal"
         namespace = "urn:x"
@@ -33,7 +35,7 @@ class Cat(Animal):
 
 
 @dataclass
-class Zoo:
+class Zoo(metaclass=StableHashMeta):
     class Meta:
         name = "zoo"
         namespace = "urn:x"
@@ -45,7 +47,7 @@ class Zoo:
 
 
 @dataclass
-class Unrelated:
+class Unrelated(metaclass=StableHashMeta):
     class Meta:
         name = "unrelated"
         namespace = "urn:x"
